@@ -13,6 +13,10 @@ pub fn tier_from(s: &str) -> Tier {
 }
 
 pub fn run_seed(base: u64, property: &str, tier: Tier, index: u64) -> u64 {
+    if property == "C32" {
+        // Exhaustive enumeration: the run index is the case number.
+        return index
+    }
     mix(&[
         base, crate::sim::hash_str(property),
         if tier == Tier::Thorough { 2 } else { 1 }, index
@@ -40,6 +44,11 @@ pub fn run_one(
         if property == "C25" {
             return crate::engb::run(
                 seed, tier == Tier::Thorough, &mask, &scratch
+            )
+        }
+        if property == "C32" {
+            return crate::engf::run_case(
+                seed as usize, tier == Tier::Thorough, &scratch
             )
         }
         if property == "C23" {
